@@ -434,6 +434,7 @@ int vx_case_begin(const char *fmt, ...) {
   w->cur_idx = idx; w->t_case = now(); w->die_entered = 0; w->in_case = 1; g_in_case = 1;
   w->executed++;
   if (S->nsamples < MAXS && g_wid < 4) { uint64_t e = w->executed; if (e == 1 || e == 7 || e == 50 || e == 400 || e == 3000 || e == 25000 || e == 200000) vx_sample(NULL); }
+  m4ri_mmc_cleanup(); /* blocks cached outside any case (operands prepared by the enumerator) are not this case's business */
   g_hdr0 = m4ri_verif_mzd_headers_in_use();
   aw_reset(); aw_tracking = 1;
   return 1;
